@@ -7,6 +7,12 @@
 // Oracles: exact aggregates at every quiescent point, interval bounds for overlapping reads, fresh
 // objects read zero / "no sample", local() private + stable, for_each / for_each_alive coverage.
 //
+// Wide thread-id layout (1 case in 4): 130..140 ids of the two thread-id spaces the harness element types use
+// are taken straight from their id allocators in a quiet phase (for babylon: that many parked threads) and a
+// generated subset F is released before the first thread starts, so the few threads of the case recycle ids at
+// the end of the first 128-entry block of the id table, in the second block and beyond the last id, and
+// for_each_alive has to enumerate an id table of two blocks with holes (tail of block 0 dead, ...).
+//
 // Plain accesses are not schedule points in this engine: an overlapping read can land only between
 // two harness operations or at the atomic operations of a first-time local().
 #include <babylon/concurrent/counter.h>
@@ -17,9 +23,12 @@
 #include <string.h>
 
 #include <condition_variable>
+#include <algorithm>
 #include <memory>
 #include <mutex>
+#include <string>
 #include <thread>
+#include <type_traits>
 #include <vector>
 
 #include "../engine/common/driver.h"
@@ -52,6 +61,15 @@ struct AdderStorageTag { friend constexpr auto steal(AdderStorageTag); };
 template struct Steal<CetlIdTag, &Cetl::_instance_id>;
 template struct Steal<AdderTlIdTag, &AdderTl::_instance_id>;
 template struct Steal<AdderStorageTag, &babylon::ConcurrentAdder::_storage>;
+// the thread-id space of CompactEnumerableThreadLocal<CellB,1> is keyed by its private cache-line type
+// (its Storage is EnumerableThreadLocal<CacheLine>): name the type through the same idiom
+template <class Tag, class T>
+struct StealType {
+  friend constexpr auto steal_type(Tag) { return std::type_identity<T>{}; }
+};
+struct CetlLineTag { friend constexpr auto steal_type(CetlLineTag); };
+template struct StealType<CetlLineTag, Cetl::CacheLine>;
+using LineB = decltype(steal_type(CetlLineTag{}))::type;
 constexpr uint32_t CETL_PER_GROUP = BABYLON_CACHELINE_SIZE * 1 / sizeof(CellB);      // 8
 constexpr uint32_t ADDER_PER_GROUP = BABYLON_CACHELINE_SIZE * 64 / sizeof(ssize_t);  // 512
 uint32_t group_of(const Cetl& x) { return (x.*steal(CetlIdTag{})) / CETL_PER_GROUP; }
@@ -74,7 +92,7 @@ struct CellInfo {
   const void* addr;
   uint64_t count;   // what the cell must hold
   int owner;        // harness thread currently entitled to it (-1: its thread exited)
-  int thread_id;    // babylon thread id of the slot (ETL only, -1 unknown)
+  int thread_id;    // babylon thread id of the slot in the id space of its kind (-1 unknown)
 };
 
 struct Obj {
@@ -115,6 +133,42 @@ struct ChurnPlan { Kind kind; std::vector<long> values; bool helper; long helper
 struct ThreadPlan { bool park; std::vector<OpPlan> ops; std::vector<ChurnPlan> churn; };
 struct DoneRec { int obj; long value; dsched::Stamp stamp; };
 
+// One babylon thread-id space (ThreadId::current_thread_id<T>() has an allocator per T): SP_A is the one of
+// EnumerableThreadLocal<CellA>, SP_B the one shared by every CompactEnumerableThreadLocal<CellB,1>.
+enum { SP_A = 0, SP_B = 1, SP_COUNT };
+template <class T>
+std::vector<int> enumerate_thread_ids() {
+  std::vector<int> v;
+  babylon::ThreadId::for_each<T>([&](uint16_t b, uint16_t e) {
+    for (uint16_t i = b; i < e; i++) v.push_back(i);
+  });
+  return v;
+}
+template <class T>
+int my_thread_id() { return babylon::ThreadId::current_thread_id<T>().value; }
+template <class T>
+int thread_id_end() { return babylon::ThreadId::end<T>(); }
+template <class T>
+babylon::IdAllocator<uint16_t>& thread_id_allocator() {
+  return babylon::internal::concurrent_id_allocator::IdAllocatorFotType<T, false>::instance();
+}
+struct IdSpace {
+  const char* name = "";
+  std::vector<int> (*enumerate)() = nullptr;  // ThreadId::for_each<T>, flattened
+  int (*current)() = nullptr;                 // ThreadId::current_thread_id<T>().value (takes an id on first use)
+  int (*end)() = nullptr;                     // ThreadId::end<T>()
+  babylon::IdAllocator<uint16_t>& (*allocator)() = nullptr;
+  std::vector<int> alive;  // ids that somebody holds now: baseline (main thread), live registered harness threads, ballast
+  std::vector<int> seen;   // ids harness threads took in this case
+  // thread-id ballast (wide cases): ids taken straight from the allocator, as if that many other threads were alive
+  bool wide = false;
+  std::vector<babylon::VersionedValue<uint16_t>> held;
+  std::vector<char> have;  // have[id]: the ballast holds id now
+  size_t nballast = 0;
+  std::string error;       // set inside quiet phases, reported after them
+  bool is_ballast(int id) const { return id >= 0 && (size_t)id < have.size() && have[(size_t)id]; }
+};
+
 struct World {
   Known known;
   std::vector<std::unique_ptr<Obj>> objs;  // live objects
@@ -124,14 +178,21 @@ struct World {
   int parked = 0;
   bool released = false;
   int live_threads_registered_a = 0;
-  std::vector<int> alive_ids_a;       // babylon ThreadId<CellA> values of live registered harness threads (+ baseline)
+  IdSpace sp[SP_COUNT];
   std::vector<DoneRec> done;          // operations completed in the current phase
   bool reader_active = false;
   uint64_t reads = 0, overlapping_reads = 0;
   int inflight = 0;
   uint64_t structural = 0, recycled = 0, thread_gens = 0;
   bool id_reused = false;
-  std::vector<int> ids_seen_a;  // thread ids ever seen in this case
+  // wide thread-id layout (a share of the cases): D ids of both spaces are ballast, the generated set F of them
+  // was released before the first thread of the case started
+  bool no_enum_check = false;  // C19_NO_ENUM_CHECK=1: skip check_alive_ids (to exercise the for_each_alive oracles alone)
+  bool wide = false;
+  int wide_D = 0;
+  std::vector<int> wide_F;
+  bool saw_dead_tail = false, saw_live_beyond = false, saw_dead_tail_and_live_beyond = false;
+  bool took_tail_id = false, took_id_beyond = false, took_mid_id = false;
   // private instance churn bookkeeping (labels / NT only)
   int churn_alive = 0;            // private objects currently alive
   int churn_dtor_in_flight = 0;   // destructors of private objects currently running
@@ -148,7 +209,7 @@ struct World {
 World* W = nullptr;
 
 thread_local int tl_harness_thread = -1;  // index of the harness thread (unique per case), 0 = main
-thread_local int tl_id_a = -1;            // its babylon ThreadId<CellA> once registered
+thread_local int tl_id[SP_COUNT] = {-1, -1};  // its babylon thread id in each space once registered
 
 // ---------------------------------------------------------------------------------------------
 Obj* construct(Kind k) {
@@ -214,6 +275,10 @@ bool contains(const std::vector<const void*>& v, const void* p) {
   for (auto x : v) if (x == p) return true;
   return false;
 }
+bool has_duplicates(std::vector<const void*> v) {
+  std::sort(v.begin(), v.end());
+  return std::adjacent_find(v.begin(), v.end()) != v.end();
+}
 bool contains_int(const std::vector<int>& v, int p) {
   for (auto x : v) if (x == p) return true;
   return false;
@@ -256,9 +321,7 @@ void check_quiescent(Obj& o, const char* when, Chooser* c) {
       bool use_const = c ? c->flip() : false;
       EtlScan all = o.kind == K_ETL ? scan_etl(o, false, use_const) : scan_cetl(o, false, use_const);
       if (all.bad_magic) dsched::fail("tls-for-each", "%s: %s#%d for_each visited an unconstructed element", when, kind_name[o.kind], o.serial);
-      for (size_t i = 0; i < all.visited.size(); i++)
-        for (size_t j = i + 1; j < all.visited.size(); j++)
-          if (all.visited[i] == all.visited[j]) dsched::fail("tls-for-each", "%s: for_each visited an element twice", when);
+      if (has_duplicates(all.visited)) dsched::fail("tls-for-each", "%s: for_each visited an element twice", when);
       for (auto& ci : o.cells)
         if (!contains(all.visited, ci.addr))
           dsched::fail("tls-for-each", "%s: %s#%d for_each did not visit a slot that a thread used (count %lu)", when, kind_name[o.kind], o.serial,
@@ -267,25 +330,70 @@ void check_quiescent(Obj& o, const char* when, Chooser* c) {
         dsched::fail("tls-exact", "%s: %s#%d sum over for_each = %lu, exact total %ld", when, kind_name[o.kind], o.serial, (unsigned long)all.total, o.sum);
       bool use_const2 = c ? c->flip() : true;
       EtlScan al = o.kind == K_ETL ? scan_etl(o, true, use_const2) : scan_cetl(o, true, use_const2);
-      for (size_t i = 0; i < al.visited.size(); i++)
-        for (size_t j = i + 1; j < al.visited.size(); j++)
-          if (al.visited[i] == al.visited[j]) dsched::fail("tls-for-each-alive", "%s: for_each_alive visited an element twice", when);
+      if (al.bad_magic) dsched::fail("tls-for-each-alive", "%s: %s#%d for_each_alive visited an unconstructed element", when, kind_name[o.kind], o.serial);
+      if (has_duplicates(al.visited)) dsched::fail("tls-for-each-alive", "%s: for_each_alive visited an element twice", when);
+      // who is alive: the main thread if it holds an id, the live registered threads of this case, and the ids held by
+      // the thread-id ballast of a wide case (babylon cannot tell those from parked threads)
+      const IdSpace& sp = w->sp[o.kind == K_ETL ? SP_A : SP_B];
+      bool tail_dead = !contains_int(sp.alive, 126) && !contains_int(sp.alive, 127);  // matters once an id >= 128 is alive
+      bool alive_beyond = false, live_thread_beyond = false, live_slot_beyond_here = false;
+      for (int id : sp.alive)
+        if (id >= 128) { alive_beyond = true; if (!sp.is_ballast(id)) live_thread_beyond = true; }
+      int cover = 0;  // the storage behind this instance covers at least the 128-slot blocks of the ids that were used on it
       for (auto& ci : o.cells) {
         bool vis = contains(al.visited, ci.addr);
+        if (ci.thread_id >= 0 && (ci.thread_id / 128 + 1) * 128 > cover) cover = (ci.thread_id / 128 + 1) * 128;
+        if (ci.owner >= 0 && ci.thread_id >= 128) live_slot_beyond_here = true;
         if (ci.owner >= 0 && !vis)
-          dsched::fail("tls-for-each-alive", "%s: %s#%d for_each_alive skipped the slot of live thread %d", when, kind_name[o.kind], o.serial, ci.owner);
-        if (o.kind == K_ETL && ci.thread_id >= 0) {
-          bool alive = contains_int(w->alive_ids_a, ci.thread_id);
+          dsched::fail("tls-for-each-alive", "%s: %s#%d for_each_alive skipped the slot of live thread %d (thread id %d)", when, kind_name[o.kind], o.serial,
+                       ci.owner, ci.thread_id);
+        if (ci.thread_id >= 0) {
+          bool alive = contains_int(sp.alive, ci.thread_id);
           if (!alive && vis)
-            dsched::fail("tls-for-each-alive", "%s: etl#%d for_each_alive visited the slot of thread id %d which no live thread holds", when, o.serial,
-                         ci.thread_id);
+            dsched::fail("tls-for-each-alive", "%s: %s#%d for_each_alive visited the slot of thread id %d which no live thread holds", when,
+                         kind_name[o.kind], o.serial, ci.thread_id);
           if (alive && !vis)
-            dsched::fail("tls-for-each-alive", "%s: etl#%d for_each_alive skipped the slot of alive thread id %d", when, o.serial, ci.thread_id);
+            dsched::fail("tls-for-each-alive", "%s: %s#%d for_each_alive skipped the slot of alive thread id %d", when, kind_name[o.kind], o.serial,
+                         ci.thread_id);
         }
       }
-      if (o.kind == K_ETL && o.touched && al.visited.size() != w->alive_ids_a.size())
+      // visited slots that no thread ever used on this instance belong to alive ids that never touched it (ballast,
+      // threads that only used other instances): still as constructed, one per such id at most, and one for every
+      // such id whose slot the storage is known to cover
+      size_t unknown = 0;
+      for (auto p : al.visited) {
+        bool known = false;
+        for (auto& ci : o.cells) if (ci.addr == p) { known = true; break; }
+        if (known) continue;
+        unknown++;
+        uint64_t cnt = o.kind == K_ETL ? static_cast<const CellA*>(p)->count : static_cast<const CellB*>(p)->count;
+        if (cnt != 0)
+          dsched::fail("tls-for-each-alive", "%s: %s#%d for_each_alive visited a slot that no thread of this instance used and it holds %lu", when,
+                       kind_name[o.kind], o.serial, (unsigned long)cnt);
+      }
+      size_t alive_without_cell = 0, alive_without_cell_covered = 0;
+      for (int id : sp.alive) {
+        bool has_cell = false;
+        for (auto& ci : o.cells) if (ci.thread_id == id) { has_cell = true; break; }
+        if (has_cell) continue;
+        alive_without_cell++;
+        if (id < cover) alive_without_cell_covered++;
+      }
+      if (unknown > alive_without_cell)
+        dsched::fail("tls-for-each-alive", "%s: %s#%d for_each_alive visited %zu slots that no thread used here, only %zu alive thread ids have no slot here (%zu alive)",
+                     when, kind_name[o.kind], o.serial, unknown, alive_without_cell, sp.alive.size());
+      if (unknown < alive_without_cell_covered)
+        dsched::fail("tls-for-each-alive", "%s: %s#%d for_each_alive visited %zu never-used slots, the storage covers %zu alive thread ids that did not use it (%zu alive)",
+                     when, kind_name[o.kind], o.serial, unknown, alive_without_cell_covered, sp.alive.size());
+      // once the storage of the instance covers every alive id the count is exact (always so when no id is >= 128)
+      int max_alive = -1;
+      for (int id : sp.alive) if (id > max_alive) max_alive = id;
+      if (o.kind == K_ETL && o.touched && max_alive < (cover > 128 ? cover : 128) && al.visited.size() != sp.alive.size())
         dsched::fail("tls-for-each-alive", "%s: etl#%d for_each_alive visited %zu slots, %zu threads are alive", when, o.serial, al.visited.size(),
-                     w->alive_ids_a.size());
+                     sp.alive.size());
+      if (tail_dead && alive_beyond) w->saw_dead_tail = true;
+      if (live_thread_beyond) w->saw_live_beyond = true;
+      if (tail_dead && live_slot_beyond_here) w->saw_dead_tail_and_live_beyond = true;
       break;
     }
     default: break;
@@ -299,15 +407,47 @@ void check_fresh(Obj& o, const char* when) {
 }
 
 // ---------------------------------------------------------------------------------------------
-void register_thread_a() {
-  if (tl_id_a >= 0) return;
+void register_thread(int space) {
+  if (tl_id[space] >= 0) return;
   World* w = W;
-  tl_id_a = babylon::ThreadId::current_thread_id<CellA>().value;
-  if (contains_int(w->alive_ids_a, tl_id_a))
-    dsched::fail("thread-id", "two live threads hold babylon thread id %d for the same type", tl_id_a);
-  w->alive_ids_a.push_back(tl_id_a);
-  if (contains_int(w->ids_seen_a, tl_id_a)) w->id_reused = true;
-  else w->ids_seen_a.push_back(tl_id_a);
+  IdSpace& sp = w->sp[space];
+  int id = tl_id[space] = sp.current();
+  if (contains_int(sp.alive, id))
+    dsched::fail("thread-id", "babylon handed out thread id %d (%s) that %s holds", id, sp.name, sp.is_ballast(id) ? "the ballast (an id that was never released)" : "another live thread");
+  sp.alive.push_back(id);
+  if (contains_int(sp.seen, id)) w->id_reused = true;
+  else sp.seen.push_back(id);
+  if (w->wide) {
+    if (id >= 128) w->took_id_beyond = true;
+    else if (id >= 120 && contains_int(w->wide_F, id)) w->took_tail_id = true;
+    else if (contains_int(w->wide_F, id)) w->took_mid_id = true;
+  }
+}
+void register_thread_a() { register_thread(SP_A); }
+void register_thread_b() { register_thread(SP_B); }
+
+// ThreadId::for_each<T> (what for_each_alive enumerates) reports exactly the ids that are held now. Only called at
+// quiescent points: every thread that took an id is registered or has been joined.
+void check_alive_ids(const char* when) {
+  World* w = W;
+  if (w->no_enum_check) return;
+  for (int k = 0; k < SP_COUNT; k++) {
+    IdSpace& sp = w->sp[k];
+    std::vector<int> got = sp.enumerate();
+    std::vector<int> want = sp.alive;
+    std::sort(want.begin(), want.end());
+    for (size_t i = 0; i + 1 < got.size(); i++)
+      if (got[i] >= got[i + 1])
+        dsched::fail("thread-id-for-each", "%s: ThreadId::for_each (%s) reported id %d after id %d", when, sp.name, got[i + 1], got[i]);
+    for (int id : want)
+      if (!contains_int(got, id))
+        dsched::fail("thread-id-for-each", "%s: ThreadId::for_each (%s) did not report id %d which %s holds (%zu reported, %zu held)", when, sp.name, id,
+                     sp.is_ballast(id) ? "the ballast" : "a live thread", got.size(), want.size());
+    for (int id : got)
+      if (!contains_int(want, id))
+        dsched::fail("thread-id-for-each", "%s: ThreadId::for_each (%s) reported id %d which nobody holds (%zu reported, %zu held)", when, sp.name, id,
+                     got.size(), want.size());
+  }
 }
 
 CellInfo& cell_of(Obj& o, const void* addr, bool etl) {
@@ -319,7 +459,7 @@ CellInfo& cell_of(Obj& o, const void* addr, bool etl) {
         dsched::fail("tls-private", "%s#%d: local() of thread %d returned the slot that live thread %d is using", kind_name[o.kind], o.serial, me, ci.owner);
       if (ci.owner < 0) dsched::label("slot_inherited_from_dead_thread");
       ci.owner = me;
-      if (etl) ci.thread_id = tl_id_a;
+      ci.thread_id = tl_id[etl ? SP_A : SP_B];
       return ci;
     }
   // a slot this object never handed out: it must not belong to another live object
@@ -329,7 +469,7 @@ CellInfo& cell_of(Obj& o, const void* addr, bool etl) {
         if (ci.addr == addr)
           dsched::fail("tls-private", "%s#%d: local() returned a slot of another live instance (%s#%d)", kind_name[o.kind], o.serial,
                        kind_name[other->kind], other->serial);
-  o.cells.push_back(CellInfo{addr, 0, me, etl ? tl_id_a : -1});
+  o.cells.push_back(CellInfo{addr, 0, me, tl_id[etl ? SP_A : SP_B]});
   return o.cells.back();
 }
 
@@ -364,6 +504,7 @@ void count_op(Obj& o, long v) {
     }
     case K_CETL: {
       CellB& cell = o.cetl->local();
+      register_thread_b();
       dsched::point();
       CellB& again = o.cetl->local();
       if (&again != &cell) dsched::fail("tls-private", "cetl#%d: local() not stable within one thread", o.serial);
@@ -456,9 +597,11 @@ void thread_exit_bookkeeping() {
   for (auto& o : w->objs)
     for (auto& ci : o->cells)
       if (ci.owner == me) ci.owner = -1;
-  if (tl_id_a >= 0) {
-    for (size_t i = 0; i < w->alive_ids_a.size(); i++)
-      if (w->alive_ids_a[i] == tl_id_a) { w->alive_ids_a.erase(w->alive_ids_a.begin() + (long)i); break; }
+  for (int k = 0; k < SP_COUNT; k++) {
+    std::vector<int>& alive = w->sp[k].alive;
+    if (tl_id[k] < 0) continue;
+    for (size_t i = 0; i < alive.size(); i++)
+      if (alive[i] == tl_id[k]) { alive.erase(alive.begin() + (long)i); break; }
   }
 }
 
@@ -481,7 +624,7 @@ struct PrivateObj {
       case K_SUMMER: *summer << v; break;
       case K_MAXER: *maxer << v; break;
       case K_MINER: *miner << v; break;
-      case K_CETL: cetl->local().count += (uint64_t)v; break;
+      case K_CETL: cetl->local().count += (uint64_t)v; if (tl_harness_thread != 1000) register_thread_b(); break;
       default: break;
     }
   }
@@ -562,7 +705,7 @@ void churn_round(int me, const ChurnPlan& cp) {
     PrivateObj* ppo = &po;
     std::thread h([ppo, hv] {
       tl_harness_thread = 1000;
-      tl_id_a = -1;
+      tl_id[SP_A] = tl_id[SP_B] = -1;
       dsched::point();
       ppo->add(hv);
     });
@@ -587,7 +730,7 @@ void churn_round(int me, const ChurnPlan& cp) {
 void worker(int harness_index, const ThreadPlan* plan) {
   World* w = W;
   tl_harness_thread = harness_index;
-  tl_id_a = -1;
+  tl_id[SP_A] = tl_id[SP_B] = -1;
   for (auto& op : plan->ops) {
     if (op.churn >= 0) churn_round(harness_index, plan->churn[(size_t)op.churn]);
     else count_op(*w->objs[(size_t)op.obj], op.value);
@@ -607,7 +750,7 @@ void worker(int harness_index, const ThreadPlan* plan) {
 void reader(int harness_index, int rounds) {
   World* w = W;
   tl_harness_thread = harness_index;
-  tl_id_a = -1;
+  tl_id[SP_A] = tl_id[SP_B] = -1;
   for (int r = 0; r < rounds; r++) {
     for (auto& o : w->objs) {
       read_overlapping(*o);
@@ -658,6 +801,67 @@ void build_crowd(std::vector<std::unique_ptr<T>>& ballast, uint32_t per_group, i
         break;
       }
   }
+}
+
+// ---------------------------------------------------------------------------------------------
+// thread-id ballast of a wide case. All of it runs in quiet phases (no other thread exists).
+// Set-up: drain the free list of the space (ids that threads of earlier cases in this process gave back), take
+// fresh ids up to D, give back whatever lies beyond D highest first (a later thread then gets D, D+1, ... exactly
+// as it would from a fresh allocator), then release the generated set F in the generated order (LIFO: the last
+// one released is the first one a thread of the case gets). What stays held are the ids [0, D) minus F minus the
+// main thread's own id: for babylon, D - |F| live threads.
+void ballast_setup(IdSpace& sp, int D, const std::vector<int>& F) {
+  babylon::IdAllocator<uint16_t>& ids = sp.allocator();
+  int end0 = sp.end();
+  int nfree = end0 - (int)sp.alive.size();
+  size_t cap = (size_t)(D > end0 ? D : end0) + 1;
+  sp.held.assign(cap, babylon::VersionedValue<uint16_t>());
+  sp.have.assign(cap, 0);
+  sp.wide = true;
+  char buf[160];
+  auto take = [&](bool fresh) {
+    auto v = ids.allocate();
+    bool bad = v.value >= cap || sp.have[v.value] || contains_int(sp.alive, v.value) || (fresh ? (int)v.value < end0 : (int)v.value >= end0);
+    if (bad && sp.error.empty()) {
+      snprintf(buf, sizeof buf, "allocate() returned id %d (%s id expected; end() was %d, %zu ids alive at the start of the case)", (int)v.value,
+               fresh ? "a fresh" : "a released", end0, sp.alive.size());
+      sp.error = buf;
+    }
+    if (v.value < cap && !sp.have[v.value]) { sp.held[v.value] = v; sp.have[v.value] = 1; }
+  };
+  for (int i = 0; i < nfree; i++) take(false);
+  while (sp.end() < D && sp.error.empty()) take(true);
+  if (!sp.error.empty()) return;
+  for (int id = (int)cap - 1; id >= D; id--)
+    if (sp.have[(size_t)id]) { ids.deallocate(sp.held[(size_t)id]); sp.have[(size_t)id] = 0; }
+  for (int id : F)
+    if (id < D && sp.have[(size_t)id]) { ids.deallocate(sp.held[(size_t)id]); sp.have[(size_t)id] = 0; }
+  for (int id = 0; id < D; id++)
+    if (sp.have[(size_t)id]) { sp.alive.push_back(id); sp.nballast++; }
+}
+// Tear-down (every thread of the case has been joined): take back every released id and return all of them highest
+// first, so that the next case of this process gets the ids 0, 1, 2, ... in this order like in a fresh process.
+void ballast_teardown(IdSpace& sp) {
+  if (!sp.wide || !sp.error.empty()) return;
+  babylon::IdAllocator<uint16_t>& ids = sp.allocator();
+  int end0 = sp.end();
+  if ((size_t)end0 + 1 > sp.have.size()) { sp.have.resize((size_t)end0 + 1, 0); sp.held.resize((size_t)end0 + 1); }
+  int nfree = end0 - (int)sp.alive.size();  // alive: the ballast and the main thread, nothing else by now
+  char buf[160];
+  for (int i = 0; i < nfree; i++) {
+    auto v = ids.allocate();
+    if ((int)v.value >= end0 || sp.have[v.value] || contains_int(sp.alive, v.value)) {
+      snprintf(buf, sizeof buf, "at the end of the case allocate() returned id %d (a released id expected: end() is %d, %zu ids are held)", (int)v.value, end0,
+               sp.alive.size());
+      sp.error = buf;
+      if ((size_t)v.value >= sp.have.size() || sp.have[v.value]) continue;
+    }
+    sp.held[v.value] = v;
+    sp.have[v.value] = 1;
+  }
+  for (size_t id = sp.have.size(); id-- > 0;)
+    if (sp.have[id]) { ids.deallocate(sp.held[id]); sp.have[id] = 0; }
+  sp.nballast = 0;
 }
 
 uint32_t obj_group(const Obj& o) {
@@ -748,15 +952,27 @@ void run_case(Chooser& c) {
   W = &world;
   world.known.parse(getenv("VF_ALLOW_KNOWN"));
   tl_harness_thread = 0;
-  tl_id_a = -1;
+  tl_id[SP_A] = tl_id[SP_B] = -1;
+  world.no_enum_check = getenv("C19_NO_ENUM_CHECK") != nullptr;
+  world.sp[SP_A].name = "EnumerableThreadLocal<CellA>";
+  world.sp[SP_A].enumerate = enumerate_thread_ids<CellA>;
+  world.sp[SP_A].current = my_thread_id<CellA>;
+  world.sp[SP_A].end = thread_id_end<CellA>;
+  world.sp[SP_A].allocator = thread_id_allocator<CellA>;
+  world.sp[SP_B].name = "CompactEnumerableThreadLocal<CellB,1>";
+  world.sp[SP_B].enumerate = enumerate_thread_ids<LineB>;
+  world.sp[SP_B].current = my_thread_id<LineB>;
+  world.sp[SP_B].end = thread_id_end<LineB>;
+  world.sp[SP_B].allocator = thread_id_allocator<LineB>;
   // the main thread of the worker process survives from case to case: whatever babylon thread ids it
   // holds are part of the baseline
-  babylon::ThreadId::for_each<CellA>([&](uint16_t b, uint16_t e) {
-    for (uint16_t i = b; i < e; i++) world.alive_ids_a.push_back(i);
-  });
-  if (world.alive_ids_a.size() > 1) dsched::fail("thread-id", "%zu babylon thread ids alive for the harness type at the start of a case (only the main thread can hold one)", world.alive_ids_a.size());
-  bool main_registered = !world.alive_ids_a.empty();
-  if (main_registered) tl_id_a = world.alive_ids_a[0];
+  for (int k = 0; k < SP_COUNT; k++) {
+    IdSpace& sp = world.sp[k];
+    sp.alive = sp.enumerate();
+    if (sp.alive.size() > 1)
+      dsched::fail("thread-id", "%zu babylon thread ids (%s) alive at the start of a case (only the main thread can hold one)", sp.alive.size(), sp.name);
+    if (!sp.alive.empty()) tl_id[k] = sp.alive[0];
+  }
 
   // Function-local statics behind the counters (id allocators, storage vectors) are initialised by whoever
   // comes first. With private churn that could be two worker threads racing in the first case of a process;
@@ -781,6 +997,45 @@ void run_case(Chooser& c) {
       dsched::describe("crowd(%s,%zu alive,+%d,-%d) ", kind_name[world.crowd_kind], n, extra, nfree);
       dsched::label(world.crowd_kind == K_CETL ? "crowd_cetl" : "crowd_adder");
     }
+  }
+  // ---- wide thread-id layout (a share of the cases): both id spaces get D ballast ids, the generated set F is free
+  if (c.chance(1, 4)) {
+    world.wide = true;
+    int D = world.wide_D = c.range(130, 140);
+    static const int tails[] = {2, 3, 8, 0, 2, 5, 4, 0};
+    int n_tail = c.pick(tails);   // the last n_tail ids of block 0
+    int n_hi = c.range(0, 3);     // ids of block 1
+    int n_mid = c.chance(1, 3) ? c.range(1, 3) : 0;  // a run in the middle of block 0
+    int order = (int)c.below(4);  // which group is released last (= handed out first)
+    bool tail_desc = c.flip();
+    std::vector<int> tail, hi, mid;
+    for (int i = 0; i < n_tail; i++) tail.push_back(tail_desc ? 127 - i : 128 - n_tail + i);
+    for (int i = 0; i < n_hi; i++) {
+      int id = 128 + (int)c.below((uint32_t)(D - 128));
+      if (!contains_int(hi, id)) hi.push_back(id);
+    }
+    int mid0 = c.range(1, 110);
+    for (int i = 0; i < n_mid; i++) mid.push_back(mid0 + i);
+    std::vector<int>& F = world.wide_F;
+    auto add = [&](const std::vector<int>& g) { F.insert(F.end(), g.begin(), g.end()); };
+    if (order == 0 || order == 3) { add(mid); add(tail); add(hi); }  // threads get block-1 ids first: the tail of block 0 stays dead
+    else if (order == 1) { add(mid); add(hi); add(tail); }           // threads get 127 / 126 first
+    else { add(hi); add(tail); add(mid); }
+    dsched::quiet_begin();
+    for (int k = 0; k < SP_COUNT; k++) ballast_setup(world.sp[k], D, F);
+    dsched::quiet_end();
+    for (int k = 0; k < SP_COUNT; k++)
+      if (!world.sp[k].error.empty()) dsched::fail("thread-id", "%s: %s", world.sp[k].name, world.sp[k].error.c_str());
+    dsched::describe("wide(D=%d F=[", D);
+    for (size_t i = 0; i < F.size(); i++) dsched::describe("%s%d", i ? "," : "", F[i]);
+    dsched::describe("]) ");
+    dsched::label("wide_thread_ids");
+    if (!tail.empty()) dsched::label("wide_F_tail_of_block0");
+    if (!hi.empty()) dsched::label("wide_F_in_block1");
+    if (!mid.empty()) dsched::label("wide_F_mid_block0");
+    if (tail.empty() && mid.empty() && !hi.empty()) dsched::label("wide_F_block1_only");
+    if (!tail.empty() && !hi.empty() && (order == 0 || order == 3)) dsched::label("wide_F_block1_ids_handed_out_first");
+    check_alive_ids("after the thread-id ballast was set up");
   }
   int nobj = c.range(1, 3);
   if (world.crowd_kind >= 0 && nobj < 2) nobj = 2;
@@ -966,6 +1221,7 @@ void run_case(Chooser& c) {
       while (world.parked < nparked) world.cv_main.wait(lk);
     }
     // quiescent: exited threads' contributions must still count; parked threads are alive
+    check_alive_ids(nparked ? "threads exited, some still alive" : "threads exited");
     for (auto& o : world.objs) check_quiescent(*o, nparked ? "threads exited, some still alive" : "threads exited", &c);
     if (nparked) dsched::label("checked_with_parked_threads");
     {
@@ -975,8 +1231,10 @@ void run_case(Chooser& c) {
     world.cv_park.notify_all();
     for (int t = 0; t < nthreads; t++)
       if (is_parked[(size_t)t]) threads[(size_t)t].join();
-    if (nparked)
+    if (nparked) {
+      check_alive_ids("all threads of the generation exited");
       for (auto& o : world.objs) check_quiescent(*o, "all threads of the generation exited", &c);
+    }
     dsched::describe("}");
   }
   // the main thread counts too (its slot persists across cases)
@@ -1007,7 +1265,31 @@ void run_case(Chooser& c) {
   dsched::mix_hash(world.structural * 131 + world.thread_gens);
   if (world.moves_across_groups) dsched::label_n("moves_across_groups_total", (uint32_t)world.moves_across_groups);
   dsched::mix_hash(world.moves_across_groups * 17 + world.moves_within_group);
+  // (also reached without ballast: the main thread keeps an id >= 128 that it took in an earlier wide case of the process)
+  if (world.saw_dead_tail) dsched::label("dead_tail_at_block_end");
+  if (world.saw_live_beyond) dsched::label("live_id_beyond_128");
+  if (world.saw_dead_tail_and_live_beyond) dsched::label("dead_tail_and_live_slot_beyond_128");
+  if (world.wide) {
+    if (world.took_tail_id) dsched::label("thread_took_id_of_block0_tail");
+    if (world.took_id_beyond) dsched::label("thread_took_id_beyond_128");
+    if (world.took_mid_id) dsched::label("thread_took_id_mid_block0");
+    dsched::mix_hash((uint64_t)world.wide_D * 8 + (world.saw_dead_tail ? 4 : 0) + (world.saw_live_beyond ? 2 : 0) + (world.took_tail_id ? 1 : 0));
+  }
   world.objs.clear();
+  if (world.wide) {
+    // the main thread keeps whatever ids it took; everything else goes back
+    dsched::quiet_begin();
+    for (int k = 0; k < SP_COUNT; k++) {
+      IdSpace& sp = world.sp[k];
+      // only the ballast and the main thread may hold ids now
+      for (int id : sp.alive)
+        if (!sp.is_ballast(id) && id != tl_id[k] && sp.error.empty()) sp.error = "harness: an id of an exited thread is still in the alive list";
+      ballast_teardown(sp);
+    }
+    dsched::quiet_end();
+    for (int k = 0; k < SP_COUNT; k++)
+      if (!world.sp[k].error.empty()) dsched::fail("thread-id", "%s: %s", world.sp[k].name, world.sp[k].error.c_str());
+  }
   if (world.crowd_kind >= 0) {
     dsched::quiet_begin();
     world.ballast_cetl.clear();
